@@ -172,6 +172,10 @@ func Sparse6Decode(s string) (*SparseGraph, error) {
 	k := 64 - bits.LeadingZeros64(n-1)
 	var bitIndex uint
 	for {
+		//Stop at the end of the string. There may be no list of edges at all.
+		if i >= len(s) {
+			return g, nil
+		}
 		b := ((s[i] - 63) >> (5 - bitIndex)) & 1
 		bitIndex++
 		if bitIndex == 6 {
